@@ -34,4 +34,5 @@ s = SendUnit(keep=skeep('C04.'))
 s.mutants = SEND_MUTANTS['C04']
 SQ = [Shape(('all',), (0,), False), Shape(('all', 'all'), (0, 0), False), Shape(('all',), (0,), True)]
 r = RecvUnit({'C04'}, SQ, SQ + [Shape(('all', 'explicit'), (0, 1), False)], keep=keep_for('C04.'))
-UNITS = [s, r, LemmaUnit('C04.bound lemma', bound_lemmas)]
+from .sendwhole import SendMaybeContract
+UNITS = [s, r, LemmaUnit('C04.bound lemma', bound_lemmas), SendMaybeContract()]
